@@ -19,13 +19,13 @@ func (urlTree *URLTree[T]) Traversal(url string) LookupFlowResult[T] {
 
 func lookupFlow[T any](urlTree *URLTree[T], url string) lookupFlowNodeResult[T] {
 	splitURL := splitURL(url)
-	lookUpLength := len(splitURL) - 1
 	currentNode := urlTree.Root
 	flows := []T{}
-	index := 0
+	// number of URL parts matched by a node of the tree so far
+	matchedParts := 0
 
 	var part urlPart
-	for index, part = range splitURL {
+	for _, part = range splitURL {
 		log.Trace().Msgf("lookupFlowNodeResult::Looking up part %v", part)
 		if currentNode.WildcardChild != nil && currentNode.WildcardChild.hasValue() {
 			flows = append(flows, *currentNode.WildcardChild.Value)
@@ -34,6 +34,7 @@ func lookupFlow[T any](urlTree *URLTree[T], url string) lookupFlowNodeResult[T] 
 		child, found := currentNode.ConstantChildren[part.Value]
 		if found && child.IsPartOfHost == part.IsPartOfHost {
 			currentNode = child
+			matchedParts++
 			continue
 		}
 
@@ -41,15 +42,20 @@ func lookupFlow[T any](urlTree *URLTree[T], url string) lookupFlowNodeResult[T] 
 		if parametricChild != nil &&
 			parametricChild.IsPartOfHost == part.IsPartOfHost {
 			currentNode = parametricChild
+			matchedParts++
 			continue
 		}
 
 		break
 	}
 
-	if index == lookUpLength && currentNode.hasValue() && currentNode.WildcardChild == nil {
+	// the node reached counts only when every part of the URL was matched
+	// (leaving the loop early stops at a prefix of the URL)
+	allPartsMatched := matchedParts == len(splitURL)
+
+	if allPartsMatched && currentNode.hasValue() && currentNode.WildcardChild == nil {
 		flows = append(flows, *currentNode.Value)
-	} else if index == lookUpLength && part.IsPartOfHost &&
+	} else if allPartsMatched && part.IsPartOfHost &&
 		currentNode.WildcardChild != nil && currentNode.WildcardChild.hasValue() {
 		// case where url is host without path and filter ends with a wildcard, for example:
 		// url: "host.com", filter: "host.com/*"
